@@ -196,7 +196,7 @@ func c20Check(c *explore.Ctx, sig string, orig, got []string, n int, desc string
 }
 
 func c20Names(r *run.Run) {
-	r.Explore(explore.Config{Name: "C20.names", Bound: c20Bound(r), Deadline: r.PartDeadline(0.6)},
+	r.Explore(explore.Config{Name: "C20.names", Bound: c20Bound(r), Deadline: r.PartDeadline(0.95)},
 		"5-glyph fonts: 5 outline/name-storage kinds (CFF, CID, glyf with no / too short / full names list) x all name patterns over {empty, A, dup, .notdef, 'a b', f_i, B} per glyph x all subsets of 6 cmap entries (incl. a ligature character, a PUA and an astral code, two codes on one glyph) x 10 GSUB variants (1.1, 1.1 with a negative delta, 1.2 with two sources for one target, 3.1, 4.1, 4.1 with one output of two rules, two ligature lookups with equal components and different outputs, two single substitutions of one glyph, a ligature of a ligature): complete, distinct, .notdef first, unique names kept, inference from cmap / substitutions, retrievable after EnsureGlyphNames, identical on repeated calls",
 		func(c *explore.Ctx) {
 			f, orig, desc := c20Font(c)
@@ -468,9 +468,9 @@ func init() {
 	Register("C20", func(r *run.Run) {
 		r.Rule = "bounded exhaustive enumeration of name patterns, name-storage kinds, cmap subsets and GSUB variants on 5-glyph fonts; all runes / forbidden-character pairs for the PostScript name"
 		r.Assume = []string{"cmap targets and GSUB glyphs refer to existing glyphs", "stability: 20 repeated calls inside C20.names, and every map iteration order of the seam's alphabet in C20.map-order"}
-		c20Names(r)
 		c20MakeSimple(r)
 		c20PostScript(r)
 		c20MapOrder(r)
+		c20Names(r)
 	})
 }
